@@ -299,7 +299,8 @@ pub fn gen_tls_changecipherspec<W>() -> impl SerializeFn<W>
 where
     W: Write,
 {
-    be_u8(u8::from(TlsRecordType::ChangeCipherSpec))
+    // the ChangeCipherSpec message is the single byte 1 ([RFC5246] 7.1)
+    be_u8(0x01)
 }
 
 /// Serialize a TLS message
